@@ -160,7 +160,18 @@ def __init__(self, num_antennas, sample_rate=3*u.GHz, fch1=0*u.GHz, ascending=Tr
     (r, I), (rr, IR) = agree_ref(ctx, gs, REF_GET, 'get_samples: over-read by max_delay on the first request, per-antenna slice / cache, '
                                  'both polarisations alike', what=('return', 'attrstores', 'calls', 'substores'), max_depth=0,
                                  expand=False)
-    bg = [e for e in I.events if e.kind == 'store' and e.data.get('target') == 'name' and e.data.get('name') in ('bg_x_v', 'bg_y_v')
+    def bg_slice(e):
+        """a local bound to a slice of a shared background stream's samples: self.bg_x.v[lo:hi] / self.bg_y.v[lo:hi]"""
+        va = e.data['value'].single_atom()
+        if va is None or va.kind != 'sub':
+            return None
+        ba = va.args[0].single_atom()
+        if ba is not None and ba.kind == 'attr' and ba.args[1] == 'v':
+            sa = ba.args[0].single_atom()
+            if sa is not None and sa.kind == 'attr' and sa.args[1] in ('bg_x', 'bg_y') and sa.args[0].key == sym('self').key:
+                return sa.args[1]
+        return None
+    bg = [e for e in I.events if e.kind == 'store' and e.data.get('target') == 'name' and bg_slice(e) is not None
           and any(pretty(c) == 'self.start_obs' for c in e.pc)]
     ctx.require(bg, 'get_samples: the first-request background slice was not found')
     n_first = ctx.spec(gs, 'num_samples + self.max_delay', I=ctx.interp(expand=False))
@@ -172,10 +183,10 @@ def __init__(self, num_antennas, sample_rate=3*u.GHz, fch1=0*u.GHz, ascending=Tr
             length = T.subst(hi - lo, lambda a: None)
             want = ctx.spec(gs, 'num_samples', I=ctx.interp(expand=False))
             lenv = T.assume(hi - lo, {T.mk_attr(sym('self'), 'start_obs').key: True})
-            ctx.formula('AGREE', f'{e.data["name"]}: the first-request slice has exactly num_samples samples', gs, lenv, want,
+            ctx.formula('AGREE', f'{bg_slice(e)}: the first-request slice has exactly num_samples samples', gs, lenv, want,
                         node=e.node, construct=e.text()[:80] + ' [length]')
             d = T.mk_attr(e.loops[-1] and T.lift(Atom('elem', e.loops[-1]['iter'], e.loops[-1]['id'])), 'delay')
-            ctx.formula('AGREE', f'{e.data["name"]}: antenna i starts max_delay - delay_i into the background', gs, lo,
+            ctx.formula('AGREE', f'{bg_slice(e)}: antenna i starts max_delay - delay_i into the background', gs, lo,
                         ctx.spec(gs, 'self.max_delay', I=ctx.interp(expand=False)) - d, node=e.node, construct=e.text()[:80] + ' [offset]')
     caches = [e for e in I.events if e.kind == 'store' and e.data.get('target') == 'sub' and 'bg_cache' in ast.unparse(e.data['base_node'])]
     ctx.require(len(caches) >= 1, 'get_samples: the background cache update was not found')
